@@ -346,9 +346,9 @@ def classify(job, verdict, out, timed_out, res):
 
 
 def relevant(desc):
-    m = re.match(r'"?\[(C\d+)\]', desc)
+    m = re.match(r'"?\[(C\d+(?:,C\d+)*)\]', desc)
     if m:
-        return m.group(1) == CURRENT_PROP[0]
+        return CURRENT_PROP[0] in m.group(1).split(",")
     return CURRENT_PROP[0] == "C01"
 
 
